@@ -121,7 +121,7 @@ func solveAll(obls []*Obligation, timeout time.Duration) {
 	var wg sync.WaitGroup
 	sem := make(chan struct{}, 8)
 	for _, o := range obls {
-		if o.Status == "trivial" {
+		if o.Status == "trivial" || o.Goal == nil {
 			continue
 		}
 		wg.Add(1)
@@ -130,6 +130,9 @@ func solveAll(obls []*Obligation, timeout time.Duration) {
 			sem <- struct{}{}
 			defer func() { <-sem }()
 			facts := append(append([]*Term{}, extra...), o.Facts...)
+			if !o.Cover {
+				facts = append(facts, heapAxiomsFor(append(append([]*Term{}, o.Facts...), o.Goal))...)
+			}
 			var vals []*Term
 			for _, in := range o.Inputs {
 				vals = append(vals, in.T)
